@@ -717,6 +717,11 @@ def _filtered_create(v, fl=None):
     def is_create(x):
         return x[0] == "meth" and x[1] == ("param", "self") and x[2] == "_create_species"
 
+    def keeps(x):
+        """the guards that keep exactly the created species and drop None: `if x`, `if x is not None`, `if x != None`"""
+        none = ("const", None)
+        return [(x, True), (("cmp", ("Is",), (x, none)), False), (("cmp", ("Eq",), (x, none)), False)]
+
     def bypass(x):
         """wrong for certain: the species is constructed directly (no pseudo-element filter at all); any other producer (a wrapper
         of _create_species, a lookup) is a shape that is not understood"""
@@ -740,8 +745,9 @@ def _filtered_create(v, fl=None):
             if not is_create(val):
                 return (False if bypass(val) else None), "elements are not produced by self._create_species(..)"
             conds = [g for gd in f.guards for g in split_guard((simp(gd[0]), gd[1]))]
-            if (val, True) not in conds:
-                return False, "no truthiness filter on the created species: a marker token would enter the list as None"
+            if not any(c in conds for c in keeps(val)):
+                # (guards that mention the created species in another way are a filter that is not understood)
+                return (None if any(val in list(walk(c)) for c, _ in conds) else False), "no truthiness filter on the created species: a marker token would enter the list as None"
         return True, ""
     m = as_map(v) if v[0] in ("comp", "copy") else None
     if m is None or not is_create(m[1]):
@@ -758,8 +764,8 @@ def _filtered_create(v, fl=None):
         return (False if bypass(body) else None), "elements are not produced by self._create_species(..)"
     # `if a and b` is `if a if b`
     conds = [g for c in ifs for g in split_guard((simp(c), True))]
-    if (body, True) not in conds:
-        return False, "no truthiness filter on the created species: a marker token would enter the list as None"
+    if not any(c in conds for c in keeps(body)):
+        return (None if any(body in list(walk(c)) for c, _ in conds) else False), "no truthiness filter on the created species: a marker token would enter the list as None"
     return True, ""
 
 
@@ -915,13 +921,35 @@ def _r8(ctx):
                 opaque |= {x[1] for x in ([b[1]] + list(b[1][1] if b[1][0] in ("tuple", "list") else ())) if x[0] == "name"}
             else:
                 body.append(b)
+        # an output that stands inside a `// ...` line comment (between the `//` and the next line break of the template text) is
+        # part of the comment, not of the code
+        in_comment, kept = False, []
+        for b in body:
+            if b[0] == "text":
+                tail = b[1].rsplit("\n", 1)[-1] if "\n" in b[1] else b[1]
+                in_comment = ("//" in tail) or (in_comment and "\n" not in b[1])
+                kept.append(b)
+            elif b[0] == "out" and in_comment:
+                kept.append(("text", "", b[2]) if len(b) > 2 else ("text", ""))
+            else:
+                kept.append(b)
+        body = kept
         outs = [b for b in body if b[0] == "out"]
         others = [b for b in body if b[0] not in ("out", "text")]
         if len(outs) == 1 and not others and any(isinstance(x, tuple) and x[:1] == ("name",) and x[1] in opaque for x in _subterms(outs[0][1])):
             ctx.unrec("R8", key, (rel, it[5]), f"the pasted value {J.show(outs[0][1])} is bound by a `set` form the analysis does not follow")
             continue
-        texts = "".join(b[1] for b in body if b[0] == "text").strip()
-        if len(outs) != 1 or others or texts:
+        import re as _re
+        # C comments and blanks between the statements are layout
+        texts = _re.sub(r"/\*.*?\*/|//[^\n]*", "", "".join(b[1] for b in body if b[0] == "text"), flags=_re.S).strip()
+        # ... and so is an output of constant blanks / line breaks
+        outs = [b for b in outs if not (b[1][0] == "const" and isinstance(b[1][1], str) and not b[1][1].strip())]
+        foreign = [b for b in outs if not any(x == var for x in _subterms(b[1]))]
+        if others or foreign:
+            # conditional / nested printing, or an output of something else than the equation, inside the loop: not understood
+            ctx.unrec("R8", key, (rel, it[5]), f"the body of the loop over ode.fex has {len(others)} control node(s) and {len(foreign)} output(s) that do not print the equation: how the statements are pasted is not understood")
+            continue
+        if len(outs) != 1 or texts:
             ctx.bad("R8", key, (rel, it[5]), "loop body must output the equation and nothing else",
                     found=f"{len(outs)} outputs, {len(others)} control nodes, text {texts[:40]!r}")
             continue
@@ -1101,5 +1129,7 @@ BENIGN = [
         {"file": T, "old": "# define in this file to avoid circular import\n", "new": "def _to_temperature_rate(expr):\n    return f\"(gamma - 1.0) * ( {expr} ) / kerg / npar\"\n\n\n# define in this file to avoid circular import\n", "count": 1},
         {"file": T, "old": 'rhs[n_spec] = f"(gamma - 1.0) * ( {rhs[n_spec]} ) / kerg / npar"', "new": "rhs[n_spec] = _to_temperature_rate(rhs[n_spec])"}]},
     {"name": "fex-loop-over-map-pipeline", "file": TEMPLATES["cvode"], "old": "    {% for eq in ode.fex -%}\n        {{ eq | stmwrap(80, 8) }}\n    {% endfor %}\n", "new": "    {% for stm in ode.fex | map(\"stmwrap\", 80, 8) -%}\n        {{ stm }}\n    {% endfor %}\n"},
+    {"name": "reactants-filter-is-not-none", "file": 'naunet/reactions/reaction.py', "old": '        self.reactants = [\n            self._create_species(r.strip())\n            for r in rps[0:3]\n            if self._create_species(r.strip())\n        ]\n', "new": '        self.reactants = [\n            self._create_species(r.strip())\n            for r in rps[0:3]\n            if self._create_species(r.strip()) is not None\n        ]\n'},
+    {"name": "fex-loop-with-comment", "file": TEMPLATES["cvode"], "old": "    {% for eq in ode.fex -%}\n        {{ eq | stmwrap(80, 8) }}\n    {% endfor %}\n", "new": "    {% for eq in ode.fex -%}\n        // equation {{ loop.index0 }}\n        {{ eq | stmwrap(80, 8) }}\n    {% endfor %}\n"},
     {"name": "template-reindent", "file": TEMPLATES["cvode"], "old": "    {% for eq in ode.fex -%}\n        {{ eq | stmwrap(80, 8) }}", "new": "    {% for eq in ode.fex -%}\n      {{ eq|stmwrap(80, 6) }}"},
 ]
